@@ -558,3 +558,64 @@ func siteInfo(id int32) simrt.SiteInfo {
 	}
 	return simrt.SiteInfo{Name: "harness", Func: "harness"}
 }
+
+// profileKinds executes every operation kind once, sequentially and outside any simulation,
+// and records which shared-state sites (package-level variables, atomics, tracked objects) it
+// touches. A kind's weight grows with the rarity of the sites it touches: a site only a few
+// kinds reach (a cache, a free list, a counter inside one decoder) is where concurrent tasks
+// can interfere, and random op mixes would otherwise almost never put two tasks there at once.
+// Deterministic for a given tree: the same ops with the same seeds in the same order.
+func profileKinds() {
+	w := &world{sc: &Scenario{Property: "C14"}, results: map[uintptr]int{}, probes: hlib.Counter{}, faults: hlib.Counter{}, maxima: hlib.MaxCounter{}}
+	type prof struct {
+		k     string
+		sites []int
+	}
+	shared := func(i int) bool {
+		switch simrt.Sites[i].Kind {
+		case "r", "w", "atomic", "p", "sync", "captured":
+			return true
+		}
+		return false
+	}
+	simrt.EnableShared(true)
+	simrt.Profiling = true
+	defer func() { simrt.Profiling = false; simrt.EnableShared(false) }()
+	siteKinds := make([]int, len(simrt.Sites)) // how many kinds touch site i
+	var all []prof
+	total := 0
+	for _, k := range []string{"lib", "parse", "pkt", "dec"} {
+		for _, n := range kindsOf(k) {
+			before := append([]uint64(nil), simrt.SiteHits...)
+			c := &taskCtx{id: 0}
+			refCtx = c
+			for rep := uint64(0); rep < 2; rep++ {
+				w.exec(c, Op{K: k, N: n, S: 0x9e37 + rep, A: 64})
+			}
+			refCtx = nil
+			p := prof{k: k}
+			for i := range simrt.SiteHits {
+				if simrt.SiteHits[i] != before[i] && shared(i) {
+					p.sites = append(p.sites, i)
+					siteKinds[i]++
+				}
+			}
+			all = append(all, p)
+			total++
+		}
+	}
+	kindWeights = map[string][]int{}
+	for _, p := range all {
+		wt := 1.0
+		for _, i := range p.sites {
+			wt += 0.25 * float64(total) / float64(siteKinds[i])
+		}
+		if wt > 400 {
+			wt = 400
+		}
+		kindWeights[p.k] = append(kindWeights[p.k], int(wt*10))
+	}
+	for i := range simrt.SiteHits {
+		simrt.SiteHits[i] = 0
+	}
+}
